@@ -75,23 +75,33 @@ def cover(ctx, binp, validate_in):
         ops = os.path.join(ctx.work, "cov_ops_%d.ndjson" % k)
         rec = os.path.join(ctx.work, "cov_%d.ndjson" % k)
         vlib.run_cmd(ctx, [binp, "opslast", ops, rec])
-        lines = open(rec).read().splitlines()
+        all_lines = open(rec).read().splitlines()
+        # validated in pieces of at most ~150 k lines (cut where a history starts): the trace is held in memory by TLC
+        pieces, cur = [], []
+        for ln in all_lines:
+            if ln.startswith('{"ev":"reset"') and len(cur) >= 150000:
+                pieces.append(cur)
+                cur = []
+            cur.append(ln)
+        if cur:
+            pieces.append(cur)
         rejected = []
-        start = 0
-        while start < len(lines):
-            tmp = rec + ".part"
-            open(tmp, "w").write("\n".join(lines[start:]) + "\n")
-            reached, total, skipped, r = validate_in(ctx, tmp)
-            if reached == total + 1:
-                break
-            bad = start + reached - 1
-            tstart = max(i for i in range(bad + 1) if lines[i].startswith('{"ev":"reset"'))
-            rejected.append(lines[tstart:bad + 1])
-            nxt = [i for i in range(bad + 1, len(lines)) if lines[i].startswith('{"ev":"reset"')]
-            if not nxt or len(rejected) >= 5:
-                break
-            start = nxt[0]
-        return rejected, len(lines)
+        for lines in pieces:
+            start = 0
+            while start < len(lines) and len(rejected) < 5:
+                tmp = rec + ".part"
+                open(tmp, "w").write("\n".join(lines[start:]) + "\n")
+                reached, total, skipped, r = validate_in(ctx, tmp)
+                if reached == total + 1:
+                    break
+                bad = start + reached - 1
+                tstart = max(i for i in range(bad + 1) if lines[i].startswith('{"ev":"reset"'))
+                rejected.append(lines[tstart:bad + 1])
+                nxt = [i for i in range(bad + 1, len(lines)) if lines[i].startswith('{"ev":"reset"')]
+                if not nxt:
+                    break
+                start = nxt[0]
+        return rejected, len(all_lines)
     with concurrent.futures.ThreadPoolExecutor(max_workers=shards) as ex:
         out = list(ex.map(one, range(shards)))
     for rejected, nlines in out:
@@ -169,7 +179,7 @@ def run(ctx):
     lock = threading.Lock()
     def validate_in(ctx, tmp):
         # validate() copies to a fixed name inside its own TLC dir, so concurrent calls are fine
-        r = vlib.run_tlc(ctx, "Trace_AnkoContainers", "Trace_AnkoContainers.cfg", workers=1, timeout=3000, copy=[tmp], want_lines=False, xss="256m", rename={os.path.basename(tmp): "cont_trace.ndjson"})
+        r = vlib.run_tlc(ctx, "Trace_AnkoContainers", "Trace_AnkoContainers.cfg", workers=1, timeout=3000, copy=[tmp], want_lines=False, xss="256m", heap="5g", rename={os.path.basename(tmp): "cont_trace.ndjson"})
         if r.error:
             raise Broken("Trace_AnkoContainers: " + r.error + r.out[-1500:])
         full = open(os.path.join(r.dir, "tlc.out"), errors="replace").read()
